@@ -197,7 +197,55 @@ def run(ctx, res):
             r = f.root_of(t["args"][0], through_named=False)
             if r[0] == "place" and r[1]["l"] in sel_locals:
                 pushes.append(bi)
-    res.floor("SELECTION-FILTER", "test_items.push sites", len(pushes), 1)
+    def switch_kind(g, bi):
+        t = g.blocks[bi]["term"]
+        r = g.root_of(t["discr"], through_named=True)
+        kind = None
+        if r[0] == "rv" and r[3]["rv"]["k"] == "discr":
+            src = g.root_of({"copy": {"l": r[3]["rv"]["place"]["l"], "p": []}}, through_named=True)
+            if src[0] == "call" and (M.callee_name(src[2]) or "").endswith(("::next",)):
+                kind = "iterator"
+            elif "ToplevelItem" in str(r[3]["rv"].get("ety", "")):
+                kind = "is-a-test"
+            elif "Option" in str(r[3]["rv"].get("ety", "")) or "Result" in str(r[3]["rv"].get("ety", "")):
+                kind = "iterator" if src[0] == "call" and "next" in (M.callee_name(src[2]) or "") else None
+        elif r[0] == "call" and (M.callee_name(r[2]) or "").endswith("str>::contains"):
+            kind = "name-filter"
+        return (kind, describe_operand(g, t["discr"]), bi)
+    # iterator form: the selected vector is `all.iter().filter(|item| ..).cloned().collect()`; the closure is the condition
+    from .. import panicinv as PI
+    filters = []
+    for l in sorted(sel_locals):
+        r = f.root_of({"copy": {"l": l, "p": []}}, through_named=True)
+        for _ in range(8):
+            if r[0] == "place":
+                dd = [d for d in f.defs.get(r[1]["l"], []) if d[1] == "term"]
+                if len(dd) != 1:
+                    break
+                r = ("call", dd[0][0], dd[0][2])
+                continue
+            if r[0] != "call":
+                break
+            t = r[2]
+            nm = (M.callee_name(t) or "").split("::")[-1]
+            for a in t["args"][1:]:
+                cp = PI._closure_of(f, a)
+                if cp and cp in P.funcs:
+                    filters.append((nm, P.funcs[cp]))
+            if not t["args"]:
+                break
+            r = f.root_of(t["args"][0], through_named=True)
+    res.floor("SELECTION-FILTER", "test_items.push sites", len(pushes) + len(filters), 1)
+    for nm, c in filters:
+        conds = [switch_kind(c, bi) for bi in c.rpo if c.blocks[bi]["term"]["t"] == "switch"]
+        extra = [x for x in conds if x[0] is None]
+        if nm != "filter" or extra:
+            why = extra[0][1][:80] if extra else "the adapter is `%s`, not a plain filter" % nm
+            res.bad("SELECTION-FILTER", "test_runner::run_tests_in_files # extra-condition # " + why[:60],
+                    "a test is selected for the run only if `%s` also holds: tests can be dropped from the run (and from the "
+                    "failure count that decides the exit status) for a reason other than the -n filter" % why, c.loc())
+        else:
+            res.ok("SELECTION-FILTER", "the selection closure tests only %s" % sorted({x[0] for x in conds}))
     for pb in pushes:
         conds = []
         for bi in f.rpo:
@@ -207,20 +255,7 @@ def run(ctx, res):
             on_edge = any(pb in D.edge_dominated(f, bi, tgt) for tgt in set(f.succ[bi]))
             if not on_edge:
                 continue
-            r = f.root_of(t["discr"], through_named=True)
-            desc = describe_operand(f, t["discr"])
-            kind = None
-            if r[0] == "rv" and r[3]["rv"]["k"] == "discr":
-                src = f.root_of({"copy": {"l": r[3]["rv"]["place"]["l"], "p": []}}, through_named=True)
-                if src[0] == "call" and (M.callee_name(src[2]) or "").endswith(("::next",)):
-                    kind = "iterator"
-                elif "ToplevelItem" in str(r[3]["rv"].get("ety", "")):
-                    kind = "is-a-test"
-                elif "Option" in str(r[3]["rv"].get("ety", "")) or "Result" in str(r[3]["rv"].get("ety", "")):
-                    kind = "iterator" if src[0] == "call" and "next" in (M.callee_name(src[2]) or "") else None
-            elif r[0] == "call" and (M.callee_name(r[2]) or "").endswith("str>::contains"):
-                kind = "name-filter"
-            conds.append((kind, desc, bi))
+            conds.append(switch_kind(f, bi))
         extra = [c for c in conds if c[0] is None]
         if extra:
             res.bad("SELECTION-FILTER", "test_runner::run_tests_in_files # extra-condition # " + extra[0][1][:60],
